@@ -12,6 +12,7 @@ import (
 	"bytes"
 	"errors"
 	"fmt"
+	"reflect"
 	"strings"
 	"testing"
 	"testing/synctest"
@@ -152,7 +153,8 @@ func runWire(t *testing.T, w *wireCase, max int32) (r wireResult) {
 		if w.tags != nil {
 			ctx = AddRPCTagsToContext(ctx, CtxRPCTags(w.tags))
 		}
-		xa.calls.seqid = SeqNumber(w.seq)
+		// through reflection: independent of the counter's declared integer type
+		reflect.ValueOf(&xa.calls.seqid).Elem().SetInt(int64(w.seq))
 		cli := NewClient(xa, nil, nil)
 		switch w.kind {
 		case "call", "callc", "cancel":
